@@ -116,6 +116,26 @@ EXTRA2 = {
 for k, l in EXTRA2.items():
     tech, text, note, ref = CHECKS[k]
     CHECKS[k] = (tech, text + l, note, ref)
+
+# fifth round (scale, process-wide state, error paths)
+EXTRA3 = {
+ "C01": ("; exhaustive degenerate payloads (character fields over {space, A, 0, reserved}, 56-bit fields with at most three bits set)", " Character fields of BDS 2,0 / 0,8 / 2,1 over a four-symbol alphabet and every 56-bit field with at most three bits set under DF17 / 18 / 20 / 21 are enumerated."),
+ "C03": ("; one frame in eight decoded right after error-path inputs on the same thread", " One frame in eight is decoded right after cut / over-long / empty inputs on the same thread."),
+ "C04": ("; reports carrying a stale position in their own fields (metamorphic: the answer may not depend on it)", " A third of the pairs carry a stale position in the reports' own latitude / longitude fields."),
+ "C05": ("; reports carrying a stale position in their own fields (metamorphic: the answer may not depend on it)", " Half of the reports carry a position left by an earlier decoding pass in their own fields (another place, the origin, NaN)."),
+ "C06": ("; blocks of reports delivered late (lagging receiver); crowd histories (non-interference among hundreds of aircraft)", " A quarter of the plans deliver a block of 1-3 reports late with truthful timestamps; crowd histories put 1-4 regular aircraft among 260-1500 others."),
+ "C07": ("; decode1090 batches written with -o file, batches of 257-1299 frames", " decode1090 batches are also written with -o file; batches of 257-1299 frames."),
+ "C09": ("; scale stratum: streams of 70-6000 frames (beyond 64 KiB), dense Mode A/C traffic (more than 64 frames per read)", " Long streams of 70-6000 frames, 90 % / 100 % Mode A/C, mixed or escape-heavy, in reads of 1024 / 1000 / 700 / 93 bytes."),
+ "C10": ("; scale strata: generated histories of 300-140 000 arrivals (thorough 600 000) over up to 9000 frames and 65 535 receivers, reduced to the shortest failing prefix by bisection, also through decode1090", " Scale strata: more than 255 / 1023 / 4095 groups open at once, records with more than 255 receptions, more than 65 535 records, more than 255 receivers (counted in the evidence)."),
+ "C11": ("; every list length 1-64 with the own value at every position, every single-byte neighbour of the address as the only entry, df numbers that no format has (also end to end)", " Lists of up to 64 entries with the own value at every position, every single-byte neighbour of the address, df numbers no format has (32, 33, 99, 255, 1000)."),
+ "C12": ("; DF18 under every control field; scale strata: histories of 1100-5000 records (a busy aircraft among quiet ones), one of more than 65 536 records of one aircraft, crowds of 260-5000 aircraft", " DF18 under each control field; long histories with a busy aircraft among aircraft heard once, a 72 000-record history (thorough 140 000), crowds of 260-5000 aircraft."),
+ "C16": ("; DNS names of up to 253 bytes", " Host names of up to 253 bytes with labels of up to 63."),
+ "C17": ("; navigation keys held down on tables of 4-1025 rows (thorough 65 537)", " 'Any number of aircraft': every navigation key held down until the selection has gone round tables of 4-130, 199-201, 255-257, 1000, 1023-1025 rows, from the first row, the last row and the middle; random sequences on 4-299 rows."),
+ "C18": ("; call sequences mixing both functions (boundary-biased and relative arguments) in-process and each in a process of its own (first-call state); one first call per year", " Histories: sequences of 2-11 calls of both functions, each call judged by its exact oracle, in this process and each sequence again in a fresh process; one first call per year 1980-2100 followed by the present."),
+}
+for k, (t, l) in EXTRA3.items():
+    tech, text, note, ref = CHECKS[k]
+    CHECKS[k] = (tech + t, text + l, note, ref)
 PENDING_REASON = "check not yet built in this session (work in progress; see DESIGN.md 5 for the planned check)"
 
 props = [json.loads(l) for l in open(os.path.join(HERE, "properties.jsonl"))]
